@@ -31,6 +31,18 @@ PLAN = {
             'tolerance is tiny (2^-20 unit): the |l1-l0| < tol guard is exercised only at zero travel',
         ],
     },
+    'C05': {
+        'stages': [
+            {'name': 'resample',
+             'mc': [{'module': 'MC_C05', 'cfg': cfgs('MC_C05_quick.cfg', 'MC_C05_thorough.cfg'), 'workers': 8}],
+             'gens': ['gen_c05_random'],
+             'trace': 'Trace_Curve'},
+        ],
+        'assumptions': [
+            'TLC evaluates the resampling / simplification / gap-filling operators of Curve.tla correctly (exact rational arithmetic)',
+            'harness projection: vertices quantised to 2^-14 lattice unit',
+        ],
+    },
     'C18': {
         'stages': [
             {'name': 'angles',
